@@ -32,6 +32,10 @@ theorem ofFlag_some {σ : Type} (r : σ × Bool) : (ofFlag r).2 = some () ↔ r.
 @[simp] theorem bindS_retU {σ : Type} (r : σ × Option Unit) : Py.bindS r (fun s _ => (s, some ())) = r := by
   rcases r with ⟨s, _ | a⟩ <;> rfl
 
+theorem bindS_assoc {σ α β γ : Type} (r : σ × Option α) (k : σ → α → σ × Option β) (k' : σ → β → σ × Option γ) :
+    Py.bindS (Py.bindS r k) k' = Py.bindS r (fun s a => Py.bindS (k s a) k') := by
+  rcases r with ⟨s, _ | a⟩ <;> rfl
+
 theorem bindS_ofFlag {σ β : Type} (r : σ × Bool) (k : σ → Unit → σ × Option β) :
     Py.bindS (ofFlag r) k = if r.2 then k r.1 () else (r.1, none) := by
   rcases r with ⟨s, _ | _⟩ <;> rfl
@@ -247,5 +251,40 @@ theorem src_store_slice_eq (s : Py.SliceSt R) (hs : s.ref_offset ≤ s.refs.leng
       congr 1
       funext s' _
       exact src_forS_refs s.refs s.ref_offset (s.refs.length - s.ref_offset) (by omega) s'
+
+/-! ### strings, addresses -/
+
+/-- `store_string(value)`: the argument is `value.encode()` (a str travels as its UTF-8 bytes) -/
+theorem src_store_string_eq (bs : Bytes) (b : Builder R) : store_string bs b = ofFlag (BOp.storeString bs b) := by
+  unfold store_string BOp.storeString
+  by_cases h : bs.length > 127
+  · rw [if_pos h]
+    split
+    · exfalso; omega
+    · rfl
+  · rw [if_neg h]
+    split
+    · simp only [src_frombytes_eq, bindS_retU]
+    · exfalso; omega
+
+/-- an internal address as the hand model writes it -/
+def addrOf (a : Py.AddrV) : Addr := .std (a.anycast.map fun c => (c.depth, c.rewrite_pfx)) a.wc a.hash_part
+
+theorem src_store_address_none_eq (u : Unit) (b : Builder R) : store_address_none u b = ofFlag (BOp.storeAddress .none b) := by
+  unfold store_address_none BOp.storeAddress
+  simp only [src_store_bits_eq, bindS_retU]
+
+theorem src_store_address_std_eq (a : Py.AddrV) (b : Builder R) :
+    store_address_address a b = ofFlag (BOp.storeAddress (addrOf a) b) := by
+  obtain ⟨wc, h, any⟩ := a
+  unfold store_address_address BOp.storeAddress addrOf
+  have h0 := fun (x : Builder R) => src_store_bit_bool false x
+  have h1 := fun (x : Builder R) => src_store_bit_bool true x
+  simp only [Bool.false_eq_true, if_false, if_true] at h0 h1
+  cases any with
+  | none =>
+    simp only [Option.map, andThen_ofFlag, src_store_bits_eq, src_store_int_eq, src_store_bytes_eq, h0, bindS_retU, bindS_assoc]
+  | some c =>
+    simp only [Option.map, andThen_ofFlag, src_store_bits_eq, src_store_int_eq, src_store_uint_eq, src_store_bytes_eq, h1, bindS_retU, bindS_assoc]
 
 end TonVerif.Proofs.SrcBuilder
